@@ -17,6 +17,11 @@ Definition obs_eq (sch : schema) (a b : tstate) : Prop :=
   (forall v, lookup0 sch a v = lookup0 sch b v) /\
   (forall r, ins_ok sch a r = ins_ok sch b r).
 
+(* the state a history reaches from the empty table, and a state after BEGIN; body; ROLLBACK *)
+Definition reach (sch : schema) (p : list op) : tstate := fst (run sch p (t_empty, None)).
+Definition rolled_back (sch : schema) (st : tstate) (body : list op) : tstate :=
+  fst (run sch (OBegin :: body ++ [ORollback]) (st, None)).
+
 (* ------------------------------------------------------------------ state invariant *)
 Definition ids_sorted (st : tstate) : Prop := StronglySorted Z.lt (map e_id (ents st)).
 Definition ids_below (st : tstate) : Prop := forall e, In e (ents st) -> e_id e < nextid st.
